@@ -18,6 +18,12 @@ CLAIMED = {
          "Lean proof of the decision logic + exhaustive/differential correspondence"),
  "C16": ("proof", "Lean: allowed => scheme/https/rebind(no listed address class, by range arithmetic)/deny/allow conditions; every redirect hop checked; denied sends nothing; tie: URL x resolver x policy differential through real checkEgressPolicy, address-class edges, redirect chains through the real HTTPDeliverer", "§7 C16",
          "Lean proof of the decision logic + differential correspondence"),
+ "C08": ("proof", "Lean (for every keyed function mac): HMAC acceptance => all header/timestamp/tolerance/nonce/signature-under-a-secret-valid-at-the-signed-time conditions; every missing condition rejects; Basic exact; forward-auth table; any denial precedes the enqueue; a 202 implies every declared authenticator accepted; tie: generated signed requests and mutations through the real ingress handler + runtime state, signatures re-verified by a Lean SHA-256/HMAC", "§7 C08",
+         "Lean proof of the verifier model + differential correspondence with independent HMAC"),
+ "C09": ("proof", "Lean: nonce-cache invariant - an accepted nonce is cached with expiry ts+tol, stays cached while live (including the boundary instant), and every later request carrying it while the window is open is rejected, over arbitrary histories with a monotone clock; tie: request sequences with boundary arrival times, verbatim replays and configuration reloads through the real handler", "§7 C09",
+         "Lean proof of the nonce-cache invariant + sequence correspondence"),
+ "C17": ("proof", "Lean: selected version is valid at signing time and extremal under newest/oldest (ties by id), selection independent of list order, window boundaries, nothing sent when no version is valid or the secret is unloadable, headers = unix seconds + hex mac over the canonical string of the body handed over; inbound accepts exactly the versions valid at the signed timestamp; tie: real HTTPDeliverer.Deliver on every boundary instant, Lean HMAC as oracle", "§7 C17",
+         "Lean proof of selection/signing model + differential correspondence with independent HMAC"),
  "C10": ("proof", "Lean: resolve = first inbound route whose criteria all hold (resolve_first_match), non-inbound routes unreachable for every request and configuration, 404/405 exactly when nothing matches, path/host-wildcard/method criteria characterised; pinned-tree witnesses kept; tie: generated config texts through real parser+compiler+runtime state, generated requests through real resolveIngress and the real ingress handler", "§7 C10",
          "Lean proof of the resolver model + differential correspondence"),
  "C12": ("proof", "Lean: every enqueue record of every model run satisfies C12.stepOK (admission iff below depth, drop_oldest accounting, refusal leaves queue unchanged); tie: admit-profile traces on memory and SQLite", "§7 C12",
